@@ -53,6 +53,106 @@ def state_root(e, states):
     return None
 
 
+def collect(lib, acc, fn, states, depth=0):
+    """Writes to and reads of cell state in fn (and, through calls that are handed a state, in its callees).
+    states: local / parameter id -> ("state" | "array", display name).
+    Returns (writes, reads) with writes = [(fn, stmt, lhs, op, rhs, target, label)], reads = [(fn, node, what-it-exposes)]."""
+    if depth > 4:
+        raise AnalysisBroken("%s: helper chain deeper than 4 below a face operation" % fn["full"])
+    states = dict(states)
+    # local aliases: pointers / references into a state
+    for st in C.walk_stmt(fn["body"]):
+        if st.get("k") == "Decl":
+            for d in st["d"]:
+                t = d.get("t") or ""
+                if d.get("init") is not None and ("*" in t or t.rstrip().endswith("&")) and "const double" not in t.replace("*const", "*"):
+                    for x in C.walk(d["init"]):
+                        if x.get("k") == "Ref" and x.get("id") in states and states[x["id"]][0] == "array":
+                            states[d["id"]] = states[x["id"]]
+                            break
+    writes, reads = [], []
+    skip = set()
+    alias_inits = set()
+    for st in C.walk_stmt(fn["body"]):
+        if st.get("k") == "Decl":
+            for d in st["d"]:
+                if d["id"] in states and d.get("init") is not None:
+                    for x in C.walk(d["init"]):
+                        alias_inits.add(id(x))
+    for st in C.walk_stmt(fn["body"]):
+        lhs = op = rhs = None
+        if st.get("k") == "Bin" and st.get("op") in ("=",) + ACC_OPS + ("*=", "/="):
+            lhs, op, rhs = st["a"], st["op"], st["b"]
+        elif st.get("k") == "Call" and st.get("op") in ("=",) + ACC_OPS + ("*=", "/=") and st.get("obj") is not None and st["a"]:
+            lhs, op, rhs = st["obj"], st["op"], st["a"][0]
+        elif st.get("k") == "Un" and st.get("op") in ("pre++", "post++", "pre--", "post--"):
+            lhs, op, rhs = st["x"], "+=", None
+        if lhs is not None:
+            r = state_root(lhs, states)
+            if r is not None:
+                pid, accessor = r
+                kind, pname = states[pid]
+                if kind == "array":
+                    target, label = ("array", pname), pname
+                else:
+                    ms = acc.get(accessor, set()) if accessor else set()
+                    if len(ms) != 1:
+                        raise AnalysisBroken("%s: cannot resolve the member written through `%s` (line %s)" %
+                                             (fn["full"], C.pretty(lhs), st.get("l")))
+                    target = label = next(iter(ms))
+                writes.append((fn, st, lhs, op, rhs, target, label))
+                for x in C.walk(lhs):
+                    skip.add(id(x))
+                if op == "=" and rhs is not None:
+                    rr = C.strip_casts(rhs)
+                    for a in rr.get("a", []) if rr.get("k") == "Call" else []:
+                        if C.pretty(a) == C.pretty(lhs):
+                            for x in C.walk(a):
+                                skip.add(id(x))
+        # a state handed to a helper: follow it
+        if st.get("k") == "Call" and not st.get("op") and st.get("a"):
+            callee = st.get("fn") or ""
+            cands = [d for d in lib.decls if d["kind"] == "function" and d.get("body") is not None and
+                     d["full"].split("(")[0] == callee and len(d["params"]) == len(st["a"])]
+            handed = {}
+            for i, a in enumerate(st["a"]):
+                a0 = C.strip_casts(a)
+                if a0 is not None and a0.get("k") == "Ref" and a0.get("id") in states:
+                    handed[i] = (a0, states[a0["id"]])
+            if handed and cands:
+                d = cands[0]
+                sub_states = {}
+                for i, (a0, stt) in handed.items():
+                    pt = d["params"][i].get("t") or ""
+                    if stt[0] == "state" and "const" in pt:
+                        continue            # read-only view: reads inside are examined below through the accessors
+                    sub_states[d["params"][i]["id"]] = stt
+                    skip.add(id(a0))
+                if sub_states:
+                    w2, r2 = collect(lib, acc, d, sub_states, depth + 1)
+                    writes += w2
+                    reads += r2
+            elif handed and not cands and any(stt[0] == "array" for _, stt in handed.values()):
+                raise AnalysisBroken("%s: a limiter array is handed to `%s`, which has no body in the library (line %s)" %
+                                     (fn["full"], callee, st.get("l")))
+    # reads
+    allstates = dict(states)
+    for p in fn["params"]:
+        if "HydroVariables" in (p.get("t") or ""):
+            allstates.setdefault(p["id"], ("state", p["n"]))
+    seen = set()
+    for st in C.walk_stmt(fn["body"]):
+        if st.get("mac") or id(st) in skip or id(st) in alias_inits or id(st) in seen:
+            continue
+        seen.add(id(st))
+        if st.get("k") == "Call" and st.get("obj") is not None and C.strip_casts(st["obj"]).get("k") == "Ref" and \
+                C.strip_casts(st["obj"]).get("id") in allstates and allstates[C.strip_casts(st["obj"])["id"]][0] == "state":
+            reads.append((fn, st, ("accessor", C.strip_casts(st["obj"])["n"], st.get("n"))))
+        elif st.get("k") == "Ref" and st.get("id") in states and states[st["id"]][0] == "array":
+            reads.append((fn, st, ("array", st["n"])))
+    return writes, reads
+
+
 def rule_S5(chk, lib):
     acc = accessor_members(lib, "HydroVariables")
     if not acc:
@@ -65,9 +165,8 @@ def rule_S5(chk, lib):
             if not f:
                 raise AnalysisBroken("%s not found" % nm)
             fns.append(f[0])
-        # pass 1: what the phase accumulates into
-        accumulated = set()       # member names of HydroVariables, or ("array", parameter name)
-        writes = []
+        per_fn = []
+        accumulated = set()
         for fn in fns:
             chk.analysed(function=fn["full"])
             states = {}
@@ -79,94 +178,45 @@ def rule_S5(chk, lib):
                     states[p["id"]] = ("array", p["n"])
             if not states:
                 raise AnalysisBroken("%s: no cell state parameter" % fn["full"])
-            fn["_states"] = states
-            for st in C.walk_stmt(fn["body"]):
-                lhs = op = rhs = None
-                if st.get("k") == "Bin" and st.get("op") in ("=",) + ACC_OPS + ("*=", "/="):
-                    lhs, op, rhs = st["a"], st["op"], st["b"]
-                elif st.get("k") == "Call" and st.get("op") in ("=",) + ACC_OPS + ("*=", "/=") and st.get("obj") is not None and st["a"]:
-                    lhs, op, rhs = st["obj"], st["op"], st["a"][0]
-                elif st.get("k") == "Un" and st.get("op") in ("pre++", "post++", "pre--", "post--"):
-                    lhs, op, rhs = st["x"], "+=", None
-                if lhs is None:
-                    continue
-                r = state_root(lhs, states)
-                if r is None:
-                    continue
-                pid, accessor = r
-                kind, pname = states[pid]
-                if kind == "array":
-                    target = ("array", pname)
-                    label = pname
-                else:
-                    ms = acc.get(accessor, set()) if accessor else set()
-                    if len(ms) != 1:
-                        raise AnalysisBroken("%s: cannot resolve the member written through `%s` (line %s)" %
-                                             (fn["full"], C.pretty(lhs), st.get("l")))
-                    target = next(iter(ms))
-                    label = target
-                accumulated.add(target)
-                writes.append((fn, st, lhs, op, rhs, target, label))
-        if not writes:
-            raise AnalysisBroken("%s phase: no write to a cell state found" % phase)
+            writes, reads = collect(lib, acc, fn, states)
+            if not writes:
+                raise AnalysisBroken("%s: no write to a cell state found" % fn["full"])
+            per_fn.append((fn, writes, reads))
+            for w in writes:
+                accumulated.add(w[5])
         # (a) every write is an accumulation
-        for fn, st, lhs, op, rhs, target, label in writes:
-            n += 1
-            ok = op in ACC_OPS
-            if op == "=" and rhs is not None:
-                r = C.strip_casts(rhs)
-                base = (r.get("fn") or r.get("n") or "").split("::")[-1] if r.get("k") == "Call" else ""
-                if base in ("min", "max", "fmin", "fmax") and len(r["a"]) == 2 and \
-                        C.pretty(lhs) in (C.pretty(r["a"][0]), C.pretty(r["a"][1])):
-                    ok = True
-            chk.require(ok, "S5", "%s phase, %s line %s: the write to %s is an accumulation (+=, -=, min, max)" %
-                        (phase, fn["name"], st.get("l"), label), where(st, fn),
-                        "`%s` overwrites or rescales a quantity that the other sweeps of the phase also update: the result depends "
-                        "on the order of the sweeps" % C.pretty(st)[:100], function=fn["full"], construct="accumulation %s" % label)
+        for fn, writes, reads in per_fn:
+            for wfn, st, lhs, op, rhs, target, label in writes:
+                n += 1
+                ok = op in ACC_OPS
+                if op == "=" and rhs is not None:
+                    r = C.strip_casts(rhs)
+                    base = (r.get("fn") or r.get("n") or "").split("::")[-1] if r.get("k") == "Call" else ""
+                    if base in ("min", "max", "fmin", "fmax") and len(r["a"]) == 2 and \
+                            C.pretty(lhs) in (C.pretty(r["a"][0]), C.pretty(r["a"][1])):
+                        ok = True
+                chk.require(ok, "S5", "%s phase, %s line %s: the write to %s is an accumulation (+=, -=, min, max)" %
+                            (phase, wfn["name"], st.get("l"), label), where(st, wfn),
+                            "`%s` overwrites or rescales a quantity that the other sweeps of the phase also update: the result "
+                            "depends on the order of the sweeps" % C.pretty(st)[:100], function=wfn["full"],
+                            construct="accumulation %s" % label)
         # (b) nothing else reads an accumulated quantity
-        write_nodes = {}
-        for fn, st, lhs, op, rhs, target, label in writes:
-            ids = write_nodes.setdefault(id(fn), set())
-            for x in C.walk(lhs):
-                ids.add(id(x))
-            if op == "=" and rhs is not None:
-                r = C.strip_casts(rhs)
-                for a in r.get("a", []):
-                    if C.pretty(a) == C.pretty(lhs):
-                        for x in C.walk(a):
-                            ids.add(id(x))
-        for fn in fns:
-            states = fn["_states"]
-            # locals that are copies / references of a state also count
-            allstates = dict(states)
-            for p in fn["params"]:
-                if "HydroVariables" in (p.get("t") or ""):
-                    allstates.setdefault(p["id"], ("state", p["n"]))
+        members = {a for a in accumulated if isinstance(a, str)}
+        for fn, writes, reads in per_fn:
             bad = []
-            nreads = 0
-            for st in C.walk_stmt(fn["body"]):
-                if st.get("mac"):
-                    continue
-                if id(st) in write_nodes.get(id(fn), ()):
-                    continue
-                if st.get("k") == "Call" and st.get("obj") is not None and C.strip_casts(st["obj"]).get("k") == "Ref" and \
-                        C.strip_casts(st["obj"]).get("id") in allstates and allstates[C.strip_casts(st["obj"])["id"]][0] == "state":
-                    nreads += 1
-                    ms = acc.get(st.get("n"), set())
-                    hit = ms & {a for a in accumulated if isinstance(a, str)}
+            for rfn, node, what in reads:
+                if what[0] == "array":
+                    bad.append((node, "limiter array %s" % what[1]))
+                else:
+                    hit = acc.get(what[2], set()) & members
                     if hit:
-                        bad.append((st, "%s.%s() exposes %s" % (C.strip_casts(st["obj"])["n"], st.get("n"), sorted(hit))))
-                elif st.get("k") == "Ref" and st.get("id") in states and states[st["id"]][0] == "array":
-                    nreads += 1
-                    bad.append((st, "limiter array %s" % st["n"]))
+                        bad.append((node, "%s.%s() exposes %s" % (what[1], what[2], sorted(hit))))
             n += 1
             chk.require(not bad, "S5", "%s phase, %s: nothing but the accumulations themselves reads a quantity the phase accumulates "
-                        "into (%d reads of cell state examined)" % (phase, fn["name"], nreads),
-                        where(bad[0][0] if bad else fn, fn),
+                        "into" % (phase, fn["name"]), where(bad[0][0] if bad else fn, fn),
                         "; ".join("line %s reads %s" % (b[0].get("l"), b[1]) for b in bad[:4]) +
                         ": the face operation depends on what the other sweeps touching the cell have already added, so the result "
                         "depends on the subgrid layout and on the task order", function=fn["full"],
                         construct="reads accumulated state")
-        for fn in fns:
-            fn.pop("_states", None)
+            chk.note("S5 %s: %d reads of cell state examined in %s" % (phase, len(reads), fn["name"]))
     return n
